@@ -209,12 +209,20 @@ def make_case(ctype):
     @st.composite
     def case(draw):
         spec = draw(graphs.collection_spec(ctype=ctype, paths="dotdot"))
-        spec["audio"] = draw(st.sampled_from(["none", "none", "str", "path", "relstr", "relpath"]))
+        spec["audio"] = draw(st.sampled_from(["none", "none", "str", "path", "relstr", "relpath", "fspath", "relfspath"]))
         spec["cycles"] = draw(st.sampled_from([1, 1, 2, 3]))
         spec["typed_load"] = draw(st.booleans())
         return spec
 
     return case
+
+
+class _BarePathLike:
+    def __init__(self, p):
+        self._p = os.fspath(p)
+
+    def __fspath__(self):
+        return self._p
 
 
 def save_load(spec, ctx, obj, audio, path):
@@ -225,6 +233,8 @@ def save_load(spec, ctx, obj, audio, path):
         kw["audio_dir"] = str(audio)
     elif spec["audio"] in ("path", "relpath"):
         kw["audio_dir"] = audio
+    elif spec["audio"] in ("fspath", "relfspath"):
+        kw["audio_dir"] = _BarePathLike(audio)  # an os.PathLike that is neither str nor pathlib (os.DirEntry is one): only __fspath__ says where it is
     import time
 
     # the file is written in one local time zone and read in another (a laptop in the field, a server at home): naive timestamps
